@@ -30,7 +30,10 @@ CONSTANTS SubSizes,      \* sub-sizes for the "every map" family (divisors of 12
           Patterns,      \* pattern ids (see PatternSub) used for the bigger frames
           BorderCells,   \* lattice cells from which bags of border points are drawn   (relocation machine)
           MaxBorder,     \* bags of 1 .. MaxBorder border points
-          PointCells     \* lattice cells of the point that is relocated
+          PointCells,    \* lattice cells of the point that is relocated
+          HistOps,       \* entry points called in a history on ONE relocator instance          (history machine)
+          HistGrids,     \* identities of the different source-plane data grids passed to it
+          HistLen        \* number of calls of a history
 
 -----------------------------------------------------------------------------
 (* small helpers (linear-time folds over sequences) *)
@@ -129,9 +132,11 @@ OutcomesWith(p, B, rb2, rmin2, sb) ==
 Outcomes(p, B) == OutcomesWith(p, B, RB2(B), RMin2(B), SumB(B))
 
 -----------------------------------------------------------------------------
-(* Layer 2: two bounded single-step machines sharing the variables          *)
+(* Layer 2: bounded machines sharing the variables                          *)
 (*   selection :  phase "mask"   --Select-->   "selected"                  *)
 (*   relocation:  phase "border" --Relocate--> "relocated"                 *)
+(*   history   :  phase "history" --Call(op,g)--> ... (HistLen calls on    *)
+(*                ONE relocator instance with varying data grids)          *)
 
 VARIABLES sub,    \* selection: sub-size of every unmasked pixel, slim order
           bord,   \* relocation: the border (sequence of points)
@@ -162,7 +167,13 @@ InitSel == /\ shape \in Shapes
 InitRel == /\ bord \in BorderBags
            /\ pt \in PointCells
            /\ phase = "border" /\ obs = << >> /\ shape = << 1, 1 >> /\ U = {} /\ sub = << >>
-RInit == InitSel \/ InitRel
+\* A relocator is a value determined by (mask, sub-size map): every call is judged against the border of the data grid
+\* passed to THAT call, whatever was passed before.  The history machine enumerates every call sequence; `obs` is the
+\* sequence of calls made so far, each with the grid whose border the specification prescribes for it.
+InitHist == /\ HistLen > 0
+            /\ phase = "history" /\ obs = << >> /\ shape = << 1, 1 >> /\ U = {} /\ sub = << >>
+            /\ bord = << >> /\ pt = << 0, 0 >>
+RInit == InitSel \/ InitRel \/ InitHist
 
 \* the answer of the sub-border query: for every pixel that may be a border pixel the set of valid sub-pixels
 Select == /\ phase = "mask"
@@ -180,7 +191,13 @@ Relocate == /\ phase = "border"
                               ties |-> Cardinality(Outcomes(pt, bord))]))
             /\ UNCHANGED << shape, U, sub, bord, pt >>
 
-RNext == Select \/ Relocate
+Call(op, g) == /\ phase = "history"
+               /\ Len(obs) < HistLen
+               /\ obs' = Append(obs, [op |-> op, grid |-> g, border_of |-> g])
+               /\ (Len(obs') = HistLen => PrintT(ToJson([k |-> "hinst", calls |-> obs'])))
+               /\ UNCHANGED << shape, U, phase, sub, bord, pt >>
+
+RNext == Select \/ Relocate \/ (\E op \in HistOps : \E g \in HistGrids : Call(op, g))
 RSpec == RInit /\ [][RNext]_rvars
 
 -----------------------------------------------------------------------------
@@ -235,4 +252,8 @@ RelBorderPointsFixed == Relocated => ((\E j \in DOMAIN bord : bord[j] = pt) => ~
 \* the outcome is unique unless two border points are equally near
 RelDeterministicWithoutTies == Relocated => (Cardinality(Nearest(pt, bord)) = 1 => Cardinality(Outcomes(pt, bord)) = 1)
 RelOutcomeExists == Relocated => Outcomes(pt, bord) # {}
+
+\* no call of a history is judged against the border of a grid passed to an EARLIER call
+HistOwnBorder == phase = "history" => \A k \in DOMAIN obs : obs[k].border_of = obs[k].grid
+HistBounded == phase = "history" => Len(obs) <= HistLen
 =============================================================================
